@@ -336,6 +336,129 @@ impl SysComp {
         }
     }
 
+    /// `kapressure <plan>`: the real `handle_housekeeping`, one tick per plan character 1000 ms apart, over ONE
+    /// connected, just-heard-from link whose I/O half is the production `BatchUdpSocket` on an AF_UNIX datagram
+    /// pair (the far end plays the receiver). At a `1` tick the socket's send path is filled until the kernel
+    /// says EAGAIN right before the pass, and the receiver catches up 40 ms later - a congested uplink whose send
+    /// buffer is full of payload at the housekeeping instant. C14's cadence clause is about keepalives SENT: every
+    /// tick on which the link is connected and live must put a keepalive stamped with that tick on the wire (late
+    /// in wall-clock terms is fine), so consecutive keepalives are never more than two periods apart.
+    fn ka_pressure(&mut self, plan: &str, mon: &mut Mon) {
+        use std::io::ErrorKind;
+        if plan.is_empty() || plan.len() > 32 || !plan.bytes().all(|b| b == b'0' || b == b'1') {
+            mon.count("kapressure-unparsed");
+            return;
+        }
+        const T0: u64 = 1_700_000_000_000;
+        let plan: Vec<bool> = plan.bytes().map(|b| b == b'1').collect();
+        let Ok((near, far)) = socket2::Socket::pair(socket2::Domain::UNIX, socket2::Type::DGRAM, None) else {
+            mon.count("kapressure-skipped:io");
+            return;
+        };
+        let _ = near.set_nonblocking(true);
+        let _ = far.set_nonblocking(true);
+        let far: std::os::unix::net::UnixDatagram = std::os::fd::OwnedFd::from(far).into();
+        let far = Arc::new(far);
+        let outcome: Result<Vec<(u64, bool, Vec<u64>)>, &'static str> = self.rt.block_on(async {
+            let Ok(sock) = BatchUdpSocket::new(near) else { return Err("kapressure-skipped:io") };
+            let socket = Arc::new(sock);
+            let mut links = srtla_core::test_helpers::create_test_connections(1).await;
+            let cid = links[0].conn_id;
+            let mut io: ConnIoMap = HashMap::new();
+            io.insert(cid, ConnIo { socket: socket.clone(), binder: Arc::new(srtla_send::net::SourceIpBinder), remote: "127.0.0.1:8080".parse().unwrap() });
+            let mut reg = SrtlaRegistrationManager::new();
+            reg.has_connected = true;
+            let mut all_failed_at: Option<u64> = None;
+            let mut readers: HashMap<ConnectionId, ReaderHandle> = HashMap::new();
+            let (packet_tx, _packet_rx) = create_uplink_channel();
+            let drain = |far: &std::os::unix::net::UnixDatagram| -> Vec<Vec<u8>> {
+                let mut out = Vec::new();
+                let mut buf = [0u8; 2048];
+                while let Ok(n) = far.recv(&mut buf) {
+                    out.push(buf[..n].to_vec());
+                }
+                out
+            };
+            let mut rows = Vec::new();
+            for (k, full) in plan.iter().enumerate() {
+                let now = T0 + 1000 * (k as u64 + 1);
+                verif_clock::set(Some(now));
+                links[0].last_received = Some(now);
+                if !links[0].connected || links[0].is_timed_out(now) {
+                    return Err("kapressure-skipped:link-not-live");
+                }
+                let mut got: Vec<Vec<u8>> = Vec::new();
+                let drainer = if *full {
+                    let filler = [0xEEu8; 1200];
+                    let mut queued = 0usize;
+                    loop {
+                        match socket.try_send(&filler) {
+                            Ok(_) => queued += 1,
+                            Err(e) if e.kind() == ErrorKind::WouldBlock => break,
+                            Err(_) => return Err("kapressure-skipped:io"),
+                        }
+                        if queued > 100_000 {
+                            return Err("kapressure-skipped:never-full");
+                        }
+                    }
+                    let far2 = far.clone();
+                    Some(tokio::spawn(async move {
+                        tokio::time::sleep(std::time::Duration::from_millis(40)).await;
+                        let mut out = Vec::new();
+                        let mut buf = [0u8; 2048];
+                        while let Ok(n) = far2.recv(&mut buf) {
+                            out.push(buf[..n].to_vec());
+                        }
+                        out
+                    }))
+                } else {
+                    None
+                };
+                let r = tokio::time::timeout(std::time::Duration::from_secs(10), handle_housekeeping(&mut links, &mut io, &mut reg, false, now, &mut all_failed_at, &mut readers, &packet_tx)).await;
+                if r.is_err() {
+                    return Err("kapressure-skipped:housekeeping-hung");
+                }
+                if let Some(d) = drainer {
+                    if let Ok(v) = d.await {
+                        got.extend(v);
+                    }
+                }
+                tokio::time::sleep(std::time::Duration::from_millis(15)).await;
+                got.extend(drain(&far));
+                let stamped = links[0].verif_last_keepalive_sent() == Some(now);
+                let kas: Vec<u64> = got.iter().filter(|p| get_packet_type(p) == Some(SRTLA_TYPE_KEEPALIVE)).filter_map(|p| extract_keepalive_timestamp(p)).collect();
+                let live = links[0].connected && !links[0].is_timed_out(now);
+                rows.push((now, stamped && live, kas));
+            }
+            Ok(rows)
+        });
+        verif_clock::set(None);
+        match outcome {
+            Err(why) => mon.count(why),
+            Ok(rows) => {
+                mon.count("kapressure");
+                mon.nontrivial();
+                let mut last_on_wire: Option<u64> = None;
+                for (k, (now, due, kas)) in rows.iter().enumerate() {
+                    if plan[k] {
+                        mon.count("kapressure-full-tick");
+                    }
+                    if kas.contains(now) {
+                        last_on_wire = Some(*now);
+                    } else if *due {
+                        mon.fail("C14", "keepalive-not-on-wire-under-pressure", format!("tick {} (socket {} at the housekeeping instant): the link is connected, live and recorded a keepalive as sent at {now}, but no keepalive stamped {now} reached the receiver (it got {:?}); plan {:?}", k + 1, if plan[k] { "FULL, drained 40 ms later" } else { "writable" }, kas, plan.iter().map(|b| u8::from(*b)).collect::<Vec<_>>()));
+                    }
+                    if let Some(l) = last_on_wire {
+                        if now - l > 2000 {
+                            mon.fail("C14", "keepalive-gap-under-pressure", format!("no keepalive reached the wire between {l} and {now} ({} ms > two housekeeping periods) on a link that stayed connected and live", now - l));
+                            last_on_wire = Some(*now);
+                        }
+                    }
+                }
+            }
+        }
+    }
+
     /// `shortsend <count> <size>`: the I/O half of every batch flush (`net::send_all_datagrams`) on a connected
     /// AF_UNIX datagram socket with a minimal send buffer, the same `sendmmsg` path as UDP but one that really
     /// back-pressures (loopback UDP never does): `sendmmsg` accepts only the first few datagrams of a batch. If the
@@ -737,6 +860,11 @@ impl Component for SysComp {
             // `net::send_all_datagrams` under real back-pressure (short sendmmsg): monitor only, constant reply
             self.short_send(count, size, mon);
             return "shortsend-ok".into();
+        }
+        if let ["kapressure", plan] = toks {
+            // the REAL housekeeping pass over a live link whose socket is full at the tick: monitor only, constant reply
+            self.ka_pressure(plan, mon);
+            return "kapressure-ok".into();
         }
         if let ["liveloop", what] = toks {
             // the REAL event loop against an in-process fake receiver, real clock: no model state, constant
@@ -1931,6 +2059,12 @@ fn gen_case(rng: &mut Rng, tier: Tier, idx: usize) -> Vec<String> {
     if idx % 40 == 33 && matches!(std::env::var("VERIF_PROP").as_deref(), Ok("C01") | Err(_)) {
         // the I/O half of a flush under real back-pressure (short sendmmsg)
         return vec![format!("shortsend {} {}", rng.pick(&[16usize, 32, 40, 3, 64]), rng.pick(&[1316usize, 1316, 188, 1500, 64]))];
+    }
+    if idx % 40 == 13 && matches!(std::env::var("VERIF_PROP").as_deref(), Ok("C14") | Err(_)) {
+        // keepalive cadence when the link's socket is momentarily full at the housekeeping instant
+        let n = rng.range(4, 9);
+        let plan: String = (0..n).map(|k| if k > 0 && rng.chance(3, 5) { '1' } else { '0' }).collect();
+        return vec![format!("kapressure {plan}")];
     }
     if idx % 29 == 11 {
         return gen_long_rtt_history(rng);
